@@ -14,6 +14,9 @@ import (
 	"go/token"
 	"math"
 	"net/url"
+	"os"
+	"os/exec"
+	"path/filepath"
 	"strconv"
 	"strings"
 )
@@ -99,6 +102,7 @@ type c15venv struct {
 	recv   string            // receiver identifier (cfg, ident)
 	locals map[string]string // local identifier -> term
 	bad    bool              // a statement that is not part of the conjunct-list shape was met
+	prefix string            // field-path prefix of an inlined library helper (its parameter stands for cfg.<prefix>)
 }
 
 func (v *c15venv) term(e ast.Expr) (string, bool) {
@@ -112,7 +116,7 @@ func (v *c15venv) term(e ast.Expr) (string, bool) {
 		}
 	case *ast.SelectorExpr:
 		if id, ok := rootIdent(x); ok && id == v.recv {
-			return "f:" + v.a.destOf(x), true
+			return "f:" + v.prefix + v.a.destOf(x), true
 		}
 	case *ast.CallExpr:
 		if c, ok := isCall(x, "", "len"); ok && len(c.Args) == 1 {
@@ -227,6 +231,11 @@ func (v *c15venv) helper(call *ast.CallExpr, guard []string, depth int) ([]C15VC
 		}
 	case *ast.SelectorExpr:
 		id, ok := f.X.(*ast.Ident)
+		if ok && id.Name != v.recv && len(call.Args) == 1 && v.prefix == "" {
+			// pkg.F(cfg.X): a validation function of an imported library (hraft.ValidateConfig(cfg.RaftConfig)),
+			// read from the module the repository's go.mod names; its parameter stands for cfg.X
+			return v.external(id.Name, f.Sel.Name, call.Args[0], guard, depth)
+		}
 		if !ok || id.Name != v.recv || len(call.Args) != 0 {
 			return nil, false
 		}
@@ -276,6 +285,9 @@ func (v *c15venv) list(list []ast.Stmt, guard []string, depth int) []C15VConj {
 			}
 			if v.rejects(s.Body.List) {
 				out = append(out, C15VConj{Guard: guard, Cond: v.cond(s.Cond), Text: cf.src(s.Cond)})
+				continue
+			}
+			if v.foldLocal(s) {
 				continue
 			}
 			// a guard: if cond { …conjuncts… }
@@ -375,4 +387,116 @@ func C15ConstOpaque(sec *C15Section) {
 			c.Cond = []string{"opqc"}
 		}
 	}
+}
+
+// foldLocal: `if L == c { L = c2 }` for a local L bound to a constant — decided statically
+// (hraft: protocolMin := ProtocolVersionMin; if protocolMin == 0 { protocolMin = 1 }).
+func (v *c15venv) foldLocal(s *ast.IfStmt) bool {
+	be, ok := s.Cond.(*ast.BinaryExpr)
+	if !ok || be.Op != token.EQL || len(s.Body.List) != 1 {
+		return false
+	}
+	as, ok := s.Body.List[0].(*ast.AssignStmt)
+	if !ok || as.Tok != token.ASSIGN || len(as.Lhs) != 1 || len(as.Rhs) != 1 {
+		return false
+	}
+	l, ok1 := be.X.(*ast.Ident)
+	t, ok2 := as.Lhs[0].(*ast.Ident)
+	if !ok1 || !ok2 || l.Name != t.Name {
+		return false
+	}
+	cur, ok := v.locals[l.Name]
+	if !ok || !strings.HasPrefix(cur, "c:") {
+		return false
+	}
+	c, okc := v.term(be.Y)
+	n, okn := v.term(as.Rhs[0])
+	if !okc || !okn || !strings.HasPrefix(c, "c:") || !strings.HasPrefix(n, "c:") {
+		return false
+	}
+	if c == cur {
+		v.locals[l.Name] = n
+	}
+	return true
+}
+
+// c15modDir: the directory of an imported package inside the module cache, by the version go.mod requires.
+func c15modDir(repo, imp string) string {
+	raw, err := os.ReadFile(filepath.Join(repo, "go.mod"))
+	if err != nil {
+		return ""
+	}
+	best, ver := "", ""
+	for _, ln := range strings.Split(string(raw), "\n") {
+		w := strings.Fields(strings.TrimSpace(strings.TrimPrefix(strings.TrimSpace(ln), "require")))
+		if len(w) >= 2 && (imp == w[0] || strings.HasPrefix(imp, w[0]+"/")) && len(w[0]) > len(best) && strings.HasPrefix(w[1], "v") {
+			best, ver = w[0], w[1]
+		}
+	}
+	if best == "" {
+		return ""
+	}
+	cache := os.Getenv("GOMODCACHE")
+	if cache == "" {
+		if o, err := exec.Command("go", "env", "GOMODCACHE").Output(); err == nil {
+			cache = strings.TrimSpace(string(o))
+		}
+	}
+	if cache == "" {
+		return ""
+	}
+	esc := ""
+	for _, r := range best {
+		if r >= 'A' && r <= 'Z' {
+			esc += "!" + string(r+32)
+		} else {
+			esc += string(r)
+		}
+	}
+	return filepath.Join(cache, esc+"@"+ver, strings.TrimPrefix(strings.TrimPrefix(imp, best), "/"))
+}
+
+func (v *c15venv) external(pkg, fn string, arg ast.Expr, guard []string, depth int) ([]C15VConj, bool) {
+	at, ok := v.term(arg)
+	if !ok || !strings.HasPrefix(at, "f:") {
+		return nil, false
+	}
+	imp := ""
+	for _, is := range v.a.cf.f.Imports {
+		p, _ := strconv.Unquote(is.Path.Value)
+		name := p[strings.LastIndex(p, "/")+1:]
+		if is.Name != nil {
+			name = is.Name.Name
+		}
+		if name == pkg {
+			imp = p
+		}
+	}
+	dir := c15modDir(C15Repo(), imp)
+	if imp == "" || dir == "" {
+		return nil, false
+	}
+	files, _ := filepath.Glob(filepath.Join(dir, "*.go"))
+	for _, fp := range files {
+		if strings.HasSuffix(fp, "_test.go") {
+			continue
+		}
+		hcf, err := c15parse(fp)
+		if err != nil {
+			continue
+		}
+		fd := hcf.funcs[fn]
+		if fd == nil || fd.Recv != nil || fd.Body == nil || len(fd.Type.Params.List) != 1 || len(fd.Type.Params.List[0].Names) != 1 {
+			continue
+		}
+		a2 := *v.a
+		a2.cf = hcf
+		sub := &c15venv{a: &a2, recv: fd.Type.Params.List[0].Names[0].Name, locals: map[string]string{}, prefix: at[2:] + "."}
+		out := sub.list(fd.Body.List, guard, depth+1)
+		if sub.bad {
+			return nil, false
+		}
+		return out, true
+	}
+	return nil, false
 }
